@@ -1,4 +1,5 @@
 import QM.ConvDrv
+import QM.Refine
 /-! Draft executable model of the conversion loop of `process` (name table, priority sort, publication of
     resource names, pods' containers_to_start). Drop-ins, search directories and writing are not here yet. -/
 namespace Cv
@@ -79,11 +80,121 @@ def convertStepU (isUser : Bool) (t : Tbl) (q : QUnit) : Tbl × Out :=
 
 def convertStep (t : Tbl) (q : QUnit) : Tbl × Out := convertStepU false t q
 
-def processUnits (qs : List QUnit) : List (QUnit × Out) :=
-  let t0 : Tbl := { infos := qs.map fun q => (q.name, prefill q), toStart := [] }
-  let order := sortByPrio qs
-  (order.foldl (fun (acc : Tbl × List (QUnit × Out)) q =>
-    let (t', o) := convertStep acc.1 q
-    (t', acc.2 ++ [(q, o)])) (t0, [])).2
+/-! ### the loop as an instance of the abstract system of QM/Refine.lean
+
+The name table is a function from file names to `Info`, the pods' start lists a function from file names to lists of
+service files; `Refine.step` is one iteration of the loop of `process`. -/
+
+def envOf (isUser : Bool) (info : Str → Option Info) : Env :=
+  { info := info, isUser := isUser, pathExists := fun p => p == s "/dev/null" }
+
+/-- the name a .volume publishes (right after its key checks, before anything else can fail) -/
+def volumePublished (q : QUnit) : Option Str :=
+  if (firstUnknown (entriesOf q.unit (s "Volume")) supportedVolume).isSome
+     || (firstUnknown (entriesOf q.unit (s "Quadlet")) supportedQuadlet).isSome then none
+  else
+    let vn := (lookup q.unit (s "Volume") (s "VolumeName")).getD []
+    some (if vn.isEmpty then s "systemd-" ++ fileStem q.name else vn)
+
+/-- what a unit writes into the name table: a function of the unit alone (.image and .network publish at the very end
+    of a conversion that does not read the table; .volume after its key checks; the others never) -/
+def publishOf (isUser : Bool) (q : QUnit) : Option Info :=
+  let sn := serviceNameOf q.path q.unit
+  let E0 := envOf isUser (fun _ => none)
+  if q.ty == s "image" then
+    match fromImage E0 q.path q.unit with
+    | .ok (_, r) => some { serviceName := sn, resourceName := r }
+    | .error _ => none
+  else if q.ty == s "volume" then (volumePublished q).map fun r => { serviceName := sn, resourceName := r }
+  else if q.ty == s "network" then
+    match fromNetwork E0 q.path q.unit with
+    | .ok (_, r) => some { serviceName := sn, resourceName := r }
+    | .error _ => none
+  else none
+
+/-- the conversion of one unit against a name table and (for pods) the list of containers recorded so far -/
+def convOut (isUser : Bool) (info : Str → Option Info) (started : List Str) (q : QUnit) : Out :=
+  let E := envOf isUser info
+  let ty := q.ty
+  let lift {α} (r : R α) (f : α → SUnit) : Out := match r with | .ok a => .ok (f a) | .error e => .err e
+  if ty == s "image" then lift (fromImage E q.path q.unit) (·.1)
+  else if ty == s "volume" then lift (fromVolume E q.path q.unit) (·.1)
+  else if ty == s "network" then lift (fromNetwork E q.path q.unit) (·.1)
+  else if ty == s "build" then lift (fromBuild E q.path q.unit) id
+  else if ty == s "kube" then lift (fromKube E q.path q.unit) id
+  else if ty == s "pod" then lift (fromPod E q.path q.unit started) id
+  else match fromContainer E q.path q.unit with
+    | none => .outOfModel
+    | some r => lift r (·.1)
+
+/-- a container that reaches handle_pod with StartWithPod records itself in its pod's list -/
+def linkOf (isUser : Bool) (q : QUnit) (info : Str → Option Info) : Option (Str × Str) :=
+  let ty := q.ty
+  if ty == s "image" || ty == s "volume" || ty == s "network" || ty == s "build" || ty == s "kube" || ty == s "pod" then none
+  else match fromContainer (envOf isUser info) q.path q.unit with
+    | some (.ok (_, link)) => link
+    | _ => none
+
+
+/-! ### which names a conversion may look up in the name table -/
+
+def imageRefs (name : Str) : List Str :=
+  if endsWith name (s ".build") || endsWith name (s ".image") then [name] else []
+
+/-- the name handle_storage_source looks up for a source, if any -/
+def storageRef (unitPath source : Str) (checkImage : Bool) : Option Str :=
+  let src := if source.head? == some '.' then absFromUnit unitPath source else source
+  if src.head? == some '/' then none
+  else if endsWith src (s ".volume") || (checkImage && endsWith src (s ".image")) then some src
+  else none
+
+def volumeRefs (unitPath : Str) (u : SUnit) (sec : Str) : List Str :=
+  (lookupAll u sec (s "Volume")).filterMap fun v => storageRef unitPath (volSource (splitN3 v)) false
+
+def networkRefs (u : SUnit) (sec : Str) : List Str :=
+  (lookupAll u sec (s "Network")).filterMap fun nw =>
+    if nw.isEmpty then none
+    else if endsWith (netNameOf nw) (s ".network") || endsWith (netNameOf nw) (s ".container") then some (netNameOf nw) else none
+
+def mountTokRef (unitPath t : Str) : Option Str :=
+  if startsWith t (s "source=") || startsWith t (s "src=") then
+    match splitOnce '=' t with
+    | some (_, v) => storageRef unitPath v true
+    | none => none
+  else none
+
+def mountRefs (unitPath : Str) (u : SUnit) (sec : Str) : List Str :=
+  (lookupAllArgs u sec (s "Mount")).flatMap fun m =>
+    match findMountType m with
+    | some (.ok (_, toks)) => toks.filterMap (mountTokRef unitPath)
+    | _ => []
+
+def podRefs (u : SUnit) (sec : Str) : List Str :=
+  match lookup u sec (s "Pod") with
+  | some pod => [pod]
+  | none => []
+
+/-- the static read set of a unit: its own entry (container, build) and every name one of its handlers may look up -/
+def readsOf (q : QUnit) : List Str :=
+  let u := q.unit
+  let ty := q.ty
+  if ty == s "image" || ty == s "network" then []
+  else if ty == s "volume" then (match lookup u (s "Volume") (s "Image") with | some img => imageRefs img | none => [])
+  else if ty == s "build" then [q.name] ++ networkRefs u (s "Build") ++ volumeRefs q.path u (s "Build")
+  else if ty == s "kube" then networkRefs u (s "Kube")
+  else if ty == s "pod" then networkRefs u (s "Pod") ++ volumeRefs q.path u (s "Pod")
+  else [q.name] ++ imageRefs ((lookup u (s "Container") (s "Image")).getD []) ++ networkRefs u (s "Container")
+    ++ volumeRefs q.path u (s "Container") ++ mountRefs q.path u (s "Container") ++ podRefs u (s "Container")
+
+/-- the conversion loop of `process` as an abstract system -/
+def sys (isUser : Bool) : Refine.Sys QUnit Str Info Str Out :=
+  { name := QUnit.name, prio := fun q => prio q.ty, prefill := prefill, publish := publishOf isUser,
+    reads := readsOf, out := fun q t a => convOut isUser t a q, link := fun q t => linkOf isUser q t }
+
+/-- run the loop over a given processing order, starting from the pre-filled table of all units -/
+def runOrder (isUser : Bool) (units order : List QUnit) : List (QUnit × Out) :=
+  Refine.run (sys isUser) (Refine.init (sys isUser) units) order
+
+def processUnits (qs : List QUnit) : List (QUnit × Out) := runOrder false qs (sortByPrio qs)
 
 end Cv
